@@ -5,6 +5,7 @@ CONSTANTS
   Lens <- L201
   OutLens <- O302
   TrailerLen <- NoTrailer
+  DeclaredLen = FALSE
   Limit = 6
   Cuts = TRUE
   MaxWrite = 7
